@@ -334,7 +334,7 @@ def module_ignore_scope(rep: Any) -> None:
             env.pop("PYTHONPATH", None)
             p = subprocess.run([sys.executable, "-m", "mypy", "--no-incremental", "--no-error-summary", "prog.py"], cwd=d, capture_output=True, text=True, env=env, timeout=300)
             last_error_shown = "Incompatible types in assignment" in p.stdout
-            return last_error_shown == whole, f"program:\n{src}mypy exit {p.returncode}: {p.stdout.strip()[:400] or '(no output)'}"
+            return last_error_shown != whole, f"program:\n{src}mypy exit {p.returncode}: {p.stdout.strip()[:400] or '(no output)'}"
 
         rep.candidate("ignore: " + key, src, {"source": src}, replay)
 
